@@ -367,7 +367,8 @@ def bits_expansion(O):
                 claims.append(z3.And(eng.tag_of(e, None) == bv64(m.vidx("DataEntry", "Number")),
                                      eng.scalar(eng.field(eng.downcast(e, "Number"), 0, "i64")) == ((v >> sh) & bv64(1))))
             O.prove(p, z3.And(claims) if claims else z3.BoolVal(True), "entry i of bits(k, e) is bit k-1-i of the value (MSB first)",
-                    lambda mod: {"family": "control", "k": mval(mod, k, False), "v": mval(mod, v)}, scen, B.control_judge, extra=c2)
+                    lambda mod: {"family": "control", "k": mval(mod, k, False), "v": mval(mod, v)},
+                    lambda mod, v=v: B.bits_scenarios(mval(mod, k, False), mval(mod, v)), B.control_judge, extra=c2)
     # pass-through kinds
     for nm in ("X", "Z", "C", "Number"):
         cond = [tag == bv64(m.vidx("DataEntry", nm))]
